@@ -750,6 +750,8 @@ pub fn make_est_times<N: AsRef<[Link]>>(
         );
     }
 
+    #[cfg(nrel_altrios_verif)]
+    verif_hook::native::record_pre_update(&est_times);
     update_times_forward(&mut est_times, time_depart);
     update_times_backward(&mut est_times);
 
@@ -780,4 +782,10 @@ pub fn make_est_times_py(
     };
 
     make_est_times(speed_limit_train_sim, network)
+}
+
+// Verification hook (inert unless built with `--cfg nrel_altrios_verif` or under `cargo kani`).
+#[cfg(any(kani, nrel_altrios_verif))]
+mod verif_hook {
+    include!(concat!(env!("NREL_ALTRIOS_VERIF_DIR"), "/hooks/meet_pass__est_times__mod.rs"));
 }
